@@ -70,6 +70,22 @@ impl Monitor for Mon {
                 }
             }
             (Event::Send { .. }, other) => rep.violate("send-fails-for-another-reason", format!("{:?}", other), replay()),
+            // a send that fails because the caller's buffer is too small is not a request: no slot, no trace
+            (Event::SendTiny { .. }, CallRes::SendErr(ErrK::MaxOutstanding)) => {
+                if before != limit {
+                    rep.violate("refused-below-limit/small-buffer-send", format!("{} unfinished, limit {}", before, limit), replay());
+                }
+            }
+            (Event::SendTiny { .. }, CallRes::SendErr(_)) => {
+                if !st.obs.events.is_empty() {
+                    rep.violate("failed-send-produces-events", format!("{:?}", super::world::show_events(&st.obs.events)), replay());
+                } else if w.awaiting().len() != before {
+                    rep.violate("failed-send-changes-count", "", replay());
+                } else {
+                    rep.sym("failed-send-clean");
+                }
+            }
+            (Event::SendTiny { .. }, CallRes::SendOk(_)) => rep.violate("send-succeeds-with-a-16-byte-buffer", "", replay()),
             (Event::Indicate { .. }, CallRes::IndErr(ErrK::MaxOutstanding)) => rep.violate("indication-refused-by-limit", "", replay()),
             (Event::Indicate { .. }, _) => {
                 if w.awaiting().len() != before {
@@ -89,6 +105,9 @@ impl Monitor for Mon {
         } else if w.awaiting().len() >= w.cfg.max_tx {
             // once the send budget is used, still probe a full table
             v.push(Event::Send { app: 0 });
+        }
+        if w.reqs.len() < self.max_sends + 1 && !w.just_advanced {
+            v.push(Event::SendTiny { app: 0, cap: 16 });
         }
         if w.inds.len() < 1 && !matches!(w.cfg.mech, Mech::LongTerm) {
             v.push(Event::Indicate { app: 0 });
@@ -239,9 +258,9 @@ pub fn run(ctx: &RunCtx) -> i32 {
         rep,
         Finish {
             level: "model_checking",
-            rule: "breadth-first exploration of the real client for limits 0..=4 (depth 2*limit+4, capped at 9 quick / 12 thorough) x 4 transport/mechanism configurations over {Send (also probing a full table), Indicate, Timer, AdvanceTo(next point, +1 ms, beyond), Deliver(each of the first two awaiting requests x reply menu incl. auth-failing, 401, 438), Deliver(unknown id), undecodable bytes}; default limit 10: directed fill-to-limit(+1 probe) / drain / refill executions for every pair of final-outcome kinds and every split of the ten requests between them, two rounds. Monitor: send_request refused iff independently counted unfinished requests == limit; a refusal yields no event and an identical snapshot".into(),
+            rule: "breadth-first exploration of the real client for limits 0..=4 (depth 2*limit+4, capped at 9 quick / 12 thorough) x 4 transport/mechanism configurations over {Send (also probing a full table), Send with a 16-byte buffer (must fail without taking a slot), Indicate, Timer, AdvanceTo(next point, +1 ms, beyond), Deliver(each of the first two awaiting requests x reply menu incl. auth-failing, 401, 438), Deliver(unknown id), undecodable bytes}; default limit 10: directed fill-to-limit(+1 probe) / drain / refill executions for every pair of final-outcome kinds and every split of the ten requests between them, two rounds. Monitor: send_request refused iff independently counted unfinished requests == limit; a refusal yields no event and an identical snapshot".into(),
             assumptions: vec!["a final outcome is what the application observes (response delivered, TransactionFailed, Retry)".into()],
-            required_symbols: vec!["Send", "Indicate", "Timer", "Deliver", "refused-at-limit", "accepted-below-limit", "fill-drain-refill", "bfs-configs"],
+            required_symbols: vec!["Send", "Indicate", "Timer", "Deliver", "refused-at-limit", "accepted-below-limit", "fill-drain-refill", "bfs-configs", "failed-send-clean"],
             min_outcomes: 6,
             exhaustive: true,
             bounds: json!({"limits": [0,1,2,3,4,10]}),
